@@ -5,7 +5,7 @@ CONSTANTS
   Hids <- MHids
   Cap = 1000
   Bound = 2000
-  Depth = 5
+  Depth = 4
 INVARIANTS TypeOK OnePerSigner
 PROPERTIES ProofExact ProofCarriesBoth IdenticalNeverProof NoRecordOnProof
 VIEW View
